@@ -59,7 +59,7 @@ func (S) Info() scen.Info {
 			"goroutine scheduling": "stub: seeded one-at-a-time scheduler; yields between operations, between reader chunks, inside visitor and transform callbacks",
 		},
 		QuickUnits: 4000, ThoroughUnits: 500000, QuickSecs: 50, ThoroughSecs: 1200,
-		ProbeKeys: []string{"probe.reset_producer", "probe.assign_then_reset", "probe.copy_and_extend", "probe.largebytes_interleaved", "probe.two_readers_same_node", "probe.subset_match_bytes", "probe.subset_match_string", "probe.focused_transform", "probe.walk_transform", "probe.abandoned_builder", "probe.typed_node_in_pool", "probe.stream_bytes_node", "probe.callback_interleaved"},
+		ProbeKeys: []string{"probe.reset_producer", "probe.assign_then_reset", "probe.copy_and_extend", "probe.largebytes_interleaved", "probe.two_readers_same_node", "probe.subset_match_bytes", "probe.subset_match_string", "probe.focused_transform", "probe.walk_transform", "probe.abandoned_builder", "probe.typed_node_in_pool", "probe.stream_bytes_node", "probe.callback_interleaved", "probe.loaded_node_in_pool", "probe.load_while_holding_loaded_nodes"},
 		EventsKey: "events",
 	}
 }
@@ -127,7 +127,7 @@ func safe(f func()) (pan string) {
 
 // add puts a node into the pool; snap==nil means "snapshot by first read".
 func (w *world) add(n datamodel.Node, snap *model.V, origin string, nb datamodel.NodeBuilder) int {
-	if n == nil || len(w.pool) >= 28 {
+	if n == nil || len(w.pool) >= 40 {
 		return -1
 	}
 	var first *model.V
@@ -256,7 +256,7 @@ func (S) RunTape(t *sim.Tape, st *sim.Stats, keepLog bool) *sim.Outcome {
 	total := 0
 	for h := 0; h < nh; h++ {
 		for total < 80 && len(plans[h]) < 30 && t.Begin("step", 92) {
-			plans[h] = append(plans[h], step{t.Choice(14, "op"), t.Choice(64, "a"), t.Choice(64, "b"), t.Choice(64, "c")})
+			plans[h] = append(plans[h], step{t.Choice(16, "op"), t.Choice(64, "a"), t.Choice(64, "b"), t.Choice(64, "c")})
 			total++
 			t.End()
 		}
@@ -325,18 +325,32 @@ func (w *world) spawn(k int) {
 		if err := dagcbor.Encode(n, &buf); err == nil && dagcbor.Decode(nb, &buf) == nil {
 			w.add(nb.Build(), v.Canon(model.SortLenFirst), "dagcbor-decoder", nb)
 		}
-	case 3: // LinkSystem.Load
-		v := w.genV(4 + t.Choice(16, "size"))
+	case 3: // LinkSystem.Load / Fill, every codec (raw blocks decode without copying where the reader allows)
+		codec := []gen.Codec{gen.DagCbor, gen.DagCbor, gen.DagJson, gen.Raw, gen.Raw, gen.Cbor}[t.Choice(6, "load.codec")]
+		b := 4 + t.Choice(16, "size")
+		v := gen.Value(t, codec, w.cids, &b, 0)
+		if codec.RawOnly && t.Bool("load.rawsmall") {
+			v = model.BytesV(t.Sub("load.raw").Bytes(1 + t.Choice(24, "load.rawlen")))
+		}
 		n, _ := w.buildBasic(v, 0)
 		lp := cidlink.LinkPrototype{Prefix: gen.LinkFromBin(w.cids[0]).(cidlink.Link).Prefix()}
-		lp.Codec = 0x71
+		lp.Codec, lp.MhType, lp.MhLength = codec.Code, 0x12, -1
 		l, err := w.lsys.Store(linking.LinkContext{}, lp, n)
 		if err != nil {
 			return
 		}
-		ln, err := w.lsys.Load(linking.LinkContext{}, l, basicnode.Prototype.Any)
+		var ln datamodel.Node
+		if t.Bool("load.fill") {
+			nb := basicnode.Prototype.Any.NewBuilder()
+			if err = w.lsys.Fill(linking.LinkContext{}, l, nb); err == nil {
+				ln = nb.Build()
+			}
+		} else {
+			ln, err = w.lsys.Load(linking.LinkContext{}, l, basicnode.Prototype.Any)
+		}
 		if err == nil {
-			w.add(ln, v.Canon(model.SortLenFirst), "linksystem-load", nil)
+			w.add(ln, v.Canon(codec.SortMode), "linksystem-load-"+codec.Name, nil)
+			w.st.Inc("probe.loaded_node_in_pool")
 		}
 	case 4: // bindnode Wrap: type-level and representation views
 		r := &Rec{Name: "rec", N: int64(t.Choice(100, "rec.n")), Tags: []string{"x", "yy"}[:t.Choice(3, "rec.tags")], Blob: t.Sub("rec.blob").Bytes(t.Choice(40, "rec.bloblen"))}
@@ -684,6 +698,15 @@ func (w *world) step(h int, rd *reader, op, a, b, c int) string {
 		w.share = true
 		w.st.Inc("probe.abandoned_builder")
 		return fmt.Sprintf("abandon-builder(%s#%d)", e.origin, i)
+	case 14, 15: // another block is stored and loaded through the same link system while earlier loaded nodes are held
+		before := len(w.pool)
+		w.spawn(3)
+		w.share = true
+		if len(w.pool) > before {
+			w.st.Inc("probe.load_while_holding_loaded_nodes")
+			return fmt.Sprintf("load-another-block(%s)", w.pool[len(w.pool)-1].origin)
+		}
+		return "load-another-block(pool full)"
 	case 13: // subset matches on strings and bytes: every match becomes a pooled node
 		ssb := builder.NewSelectorSpecBuilder(basicnode.Prototype.Any)
 		from, ln := int64(b%7), int64(1+c%9)
